@@ -277,7 +277,11 @@ def run_impl(w: World, calls):
             elif kind == 'rebuild':
                 if call.get('noop'):
                     ret = sorted(q.x for q in circ.all_qubits())
+                tags_before = circ.tags
                 circ = rebuild(cirq, w, circ, call['how'])
+                want_tags = {'with_tags': tags_before + ('t%d' % len(tags_before),), 'untagged': ()}.get(call['how'], tags_before)
+                if tuple(circ.tags) != tuple(want_tags):
+                    stale.append((len(outs), 'tags', repr(circ.tags), repr(want_tags)))
             elif kind == 'q_all_qubits':
                 ret = sorted(q.x for q in circ.all_qubits())
             elif kind == 'q_mkeys':
